@@ -618,8 +618,10 @@ class Representation(RepresentationBaseType):
             return
         if not self.elt.check_equal(self.mode, 'live'):
             return
-        if self.mpd.timeShiftBufferDepth is None:
-            # missing MPD@timeShiftBufferDepth error is reported by manifest.py
+        if (self.mpd.timeShiftBufferDepth is None or
+                self.mpd.availabilityStartTime is None):
+            # a missing MPD@timeShiftBufferDepth or MPD@availabilityStartTime
+            # is reported by manifest.py
             return
         seg_duration = self.segmentTemplate.duration
         timeline = self.segmentTemplate.segmentTimeline
